@@ -12,7 +12,7 @@ from harness.structs_common import *
 SRC = '''struct S0 { @location(0) a: f32 }
 struct S1 { @location(0) a: f32, @location(1) m: f32 }
 struct S2 { @location(0) a: f32, @location(1) m: f32 }
-struct S3 { @location(0) a: f32, @location(1) m: f32 }
+struct S3 { @location(0) a: f32, @location(1) m: f32, @location(2) m2: f32 }
 struct Unused { @location(0) a: f32 }
 alias A0 = array<S0, 2>;
 alias A1 = array<S1, 2>;
@@ -59,15 +59,17 @@ def run(ctx):
     adom = [H['S0'], H['S1'], H['S3'], hvec4]
     vdom = [H['S0'], H['Unused']]      # vertex inputs must be flat structs of located scalars for the real pipeline
     rdom = [H['S0'], H['S1'], H['S3'], hvec4]
-    defaults = {'g0': hf32, 'g1': hf32, 'g2': hf32, 'S1.m': hf32, 'S2.m': hf32, 'S3.m': hf32, 'e0.arg': H['S0'], 'e1.arg': H['S0'],
+    defaults = {'g0': hf32, 'g1': hf32, 'g2': hf32, 'S1.m': hf32, 'S2.m': hf32, 'S3.m': hf32, 'S3.m2': hf32, 'e0.arg': H['S0'], 'e1.arg': H['S0'],
                 'e0.res': hvec4, 'e1.res': hvec4}
-    doms = {'g0': gdom, 'g1': gdom, 'g2': gdom, 'S1.m': member_dom[1], 'S2.m': member_dom[2], 'S3.m': member_dom[3],
+    doms = {'g0': gdom, 'g1': gdom, 'g2': gdom, 'S1.m': member_dom[1], 'S2.m': member_dom[2], 'S3.m': member_dom[3], 'S3.m2': member_dom[3],
             'e0.arg': vdom, 'e1.arg': adom, 'e0.res': rdom, 'e1.res': rdom}
     if ctx.tier == 'quick':
-        plans = [['g0', 'S2.m'], ['g1', 'S3.m', 'e0.res'], ['e0.arg', 'e1.arg', 'e1.res'], ['g2', 'S1.m', 'e1.arg']]
+        # ('name', handle) pins a hole to a type for that run: a variable of type S3 whose two last members are symbolic, next to another variable
+        plans = [['g0', 'S2.m'], ['g1', 'S3.m', 'e0.res'], ['e0.arg', 'e1.arg', 'e1.res'], ['g2', 'S1.m', 'e1.arg'],
+                 [('g2', H['S3']), 'g0', 'S3.m', 'S3.m2']]          # an EARLIER variable may already have reached one of the member types
     else:
         plans = [['g0', 'S2.m', 'S3.m'], ['g1', 'S3.m', 'e0.res', 'e1.arg'], ['e0.arg', 'e1.arg', 'e1.res', 'e0.res'], ['g2', 'S1.m', 'S2.m', 'e1.arg'],
-                 ['g0', 'g1', 'S1.m'], ['g0', 'S1.m', 'S2.m', 'S3.m']]
+                 ['g0', 'g1', 'S1.m'], ['g0', 'S1.m', 'S2.m', 'S3.m'], [('g0', H['S3']), 'g2', 'S3.m', 'S3.m2'], [('g1', H['S3']), 'g0', 'S3.m', 'S3.m2', 'S2.m']]
     seen = {}
     opts = dict(derive_encase_host_shareable=True)
     for plan in plans:
@@ -76,25 +78,29 @@ def run(ctx):
         gvs = c.get(module, 'global_variables').fields[0].items
         eps = c.get(module, 'entry_points').items
         terms, assume = {}, []
+        pins = dict(x for x in plan if isinstance(x, tuple))
+        plan = [x for x in plan if not isinstance(x, tuple)]
         for name in doms:
             t = z3.BitVec(name.replace('.', '_'), 32)
             terms[name] = t
             if name in plan:
                 assume.append(z3.Or([t == v for v in doms[name]]))
             else:
-                assume.append(t == defaults[name])
+                assume.append(t == pins.get(name, defaults[name]))
         for i in range(3):
             c.set(gvs[i], 'ty', terms[f'g{i}'])
         for i in (1, 2, 3):
             ms = c.get(types[H[f'S{i}']], 'inner').fields[0].items
             c.set(ms[1], 'ty', terms[f'S{i}.m'])
+            if i == 3:
+                c.set(ms[2], 'ty', terms['S3.m2'])
         for i in range(2):
             fn = c.get(eps[i], 'function')
             args = c.get(fn, 'arguments').items
             c.set(args[0], 'ty', terms[f'e{i}.arg'])
             res = c.get(fn, 'result').fields[0]
             c.set(res, 'ty', terms[f'e{i}.res'])
-        res = ctx.explore(f'structs/usage-graph-{"+".join(plan)}',
+        res = ctx.explore(f'structs/usage-graph-{"+".join(plan)}{"/pinned" if pins else ""}',
                           lambda it: it.call('structs', [mkref(module), write_options(S.conv, **opts)]),
                           assume=assume, anchors=['structs', 'add_types_recursive', 'rust_struct'], timeout_s=3000)
         want = reference(terms, H, edges, n_types)
@@ -156,7 +162,7 @@ def run(ctx):
 def reference(terms, H, edges, n_types):
     """host-visible(S) over the hole variables"""
     B = z3.BoolVal
-    member_of = {H['S1']: terms['S1.m'], H['S2']: terms['S2.m'], H['S3']: terms['S3.m']}
+    member_of = [(H['S1'], terms['S1.m']), (H['S2'], terms['S2.m']), (H['S3'], terms['S3.m']), (H['S3'], terms['S3.m2'])]
     reach = {t: z3.Or([terms[g] == t for g in ('g0', 'g1', 'g2')]) for t in range(n_types)}
     for _ in range(6):        # longest chain: var -> S3 -> A2 -> S2 -> A1/R1 -> S1 -> A0/AA0 -> array -> S0
         new = {}
@@ -165,7 +171,7 @@ def reference(terms, H, edges, n_types):
             for a, bases in edges.items():
                 if t in bases:
                     srcs.append(reach[a])
-            for sh, mt in member_of.items():
+            for sh, mt in member_of:
                 srcs.append(z3.And(reach[sh], mt == t))
             new[t] = z3.simplify(z3.Or(srcs))
         reach = new
@@ -206,7 +212,7 @@ def render(vals, H, hf32, hvec4, mj):
     return f'''struct S0 {{ @location(0) a: f32 }}
 struct S1 {{ @location(0) a: f32, @location(1) m: {sp("S1.m")} }}
 struct S2 {{ @location(0) a: f32, @location(1) m: {sp("S2.m")} }}
-struct S3 {{ @location(0) a: f32, @location(1) m: {sp("S3.m")} }}
+struct S3 {{ @location(0) a: f32, @location(1) m: {sp("S3.m")}, @location(2) m2: {sp("S3.m2")} }}
 struct Unused {{ @location(0) a: f32 }}
 alias A0 = array<S0, 2>;
 alias A1 = array<S1, 2>;
@@ -251,17 +257,17 @@ def native(ctx):
     done = False
     for i in range(n):
         vals = {'g0': ctx.rng.choice(gdom), 'g1': ctx.rng.choice(gdom), 'g2': ctx.rng.choice([hf32, H['S0'], H['A0']]),
-                'S1.m': ctx.rng.choice(member_dom[1]), 'S2.m': ctx.rng.choice(member_dom[2]), 'S3.m': ctx.rng.choice(member_dom[3]),
+                'S1.m': ctx.rng.choice(member_dom[1]), 'S2.m': ctx.rng.choice(member_dom[2]), 'S3.m': ctx.rng.choice(member_dom[3]), 'S3.m2': ctx.rng.choice(member_dom[3]),
                 'e0.arg': ctx.rng.choice([H['S0'], H['Unused']]), 'e1.arg': ctx.rng.choice([H['S0'], H['S1'], H['S3'], hvec4]),
                 'e0.res': ctx.rng.choice([hvec4, H['S0']]), 'e1.res': ctx.rng.choice([hvec4, H['S0'], H['S1']])}
         # concrete reachability
         reach = {vals['g0'], vals['g1'], vals['g2']}
-        memb = {H['S1']: vals['S1.m'], H['S2']: vals['S2.m'], H['S3']: vals['S3.m']}
+        memb = {H['S1']: [vals['S1.m']], H['S2']: [vals['S2.m']], H['S3']: [vals['S3.m'], vals['S3.m2']]}
         changed = True
         while changed:
             changed = False
             for t in list(reach):
-                for nx in edges.get(t, []) + ([memb[t]] if t in memb else []):
+                for nx in edges.get(t, []) + memb.get(t, []):
                     if nx not in reach:
                         reach.add(nx)
                         changed = True
